@@ -8,7 +8,9 @@ import (
 	"reflect"
 
 	mocker "github.com/tencent/goom"
+	"github.com/tencent/goom/verifsim/simenv"
 	"github.com/tencent/goom/verifsim/zoo/fn"
+	"github.com/tencent/goom/verifsim/zoo/meth"
 	"github.com/tencent/goom/verifsim/zoo/thunk"
 )
 
@@ -32,6 +34,13 @@ type Target struct {
 	IsMethod bool // stub matching skips the receiver
 	Simple   bool // all parameters are plain comparable scalars/strings (used for When clauses)
 	Kind     string
+	// SkipRecv reports whether stubs configured through lookup path how ignore the receiver
+	// (Struct().Method() does, the As(sig) and Func(method expression) paths do not).
+	SkipRecv func(how int) bool
+	Siblings []int // other methods of the same receiver type
+	Mates    []int // generic instantiations sharing this target's shape body (behaviour unspecified while one is mocked)
+	Generic  bool
+	Known    string // id of the open known finding that makes this target unusable in ordinary plans
 }
 
 // Targets is the corpus.
@@ -48,6 +57,86 @@ func simpleKind(t reflect.Type) bool {
 }
 
 func init() {
+	initFuncs()
+	initMethods()
+}
+
+var shapeOf = map[string]string{"GT[string]": "GT[go.shape.string]", "GT[fn.MyStr]": "GT[go.shape.string]", "GT[int]": "GT[go.shape.int]"}
+
+func initMethods() {
+	img, _ := simenv.Shared()
+	first := len(Targets)
+	for _, m := range meth.Methods {
+		m := m
+		t := &Target{Idx: len(Targets), Name: m.SymName, Typ: m.Typ, Entry: m.Entry, Call: m.Call, MkCb: m.MkCb, MkOrig: m.MkOriginCb,
+			Ph: m.Ph, PhEntry: m.PhEntry, NumHow: 1, Kind: "method", IsMethod: true, Generic: m.Generic}
+		if m.Generic && m.Typ.NumIn() > 1 {
+			// S12: the shape body takes a hidden dictionary argument after the receiver
+			t.Known = "S12"
+		}
+		if m.Generic {
+			// the jump lands on the shared shape body behind the instantiation's wrapper
+			t.Name = meth.PkgPath + ".(*" + m.Recv + ")." + m.Name
+			if img != nil {
+				if e := img.Lookup(meth.PkgPath + ".(*" + shapeOf[m.Recv] + ")." + m.Name); e != 0 {
+					t.Entry = e
+				}
+			}
+		}
+		switch m.Lookup {
+		case "method":
+			t.NumHow = 2
+			if m.Generic {
+				t.NumHow = 1
+			}
+			t.Lookup = func(b *mocker.Builder, how int) mocker.ExportedMocker {
+				if how == 1 {
+					return b.Func(m.Expr)
+				}
+				return b.Struct(m.Inst).Method(m.Name)
+			}
+			t.SkipRecv = func(how int) bool { return how == 0 }
+		case "export":
+			t.Lookup = func(b *mocker.Builder, how int) mocker.ExportedMocker {
+				return b.Struct(m.Inst).ExportMethod(m.Name).As(m.Sig)
+			}
+			t.SkipRecv = func(int) bool { return false }
+		case "ustruct":
+			name := m.Recv
+			if m.RecvKind == "ptr" {
+				name = "*" + name
+			}
+			t.Lookup = func(b *mocker.Builder, how int) mocker.ExportedMocker {
+				return b.Pkg(meth.PkgPath).ExportStruct(name).Method(m.Name).As(m.Sig)
+			}
+			t.SkipRecv = func(int) bool { return false }
+		}
+		t.Ref = func(args []interface{}) []interface{} { return fn.Compute(m.Global, m.Typ, args) }
+		t.RanCount = func() int64 { return fn.RanCount(m.Global) }
+		t.Simple = m.Lookup == "method" && m.Typ.NumIn() > 1
+		for i := 1; i < m.Typ.NumIn(); i++ {
+			if !simpleKind(m.Typ.In(i)) {
+				t.Simple = false
+			}
+		}
+		Targets = append(Targets, t)
+	}
+	for i, m := range meth.Methods {
+		for j, o := range meth.Methods {
+			if i == j {
+				continue
+			}
+			if o.Recv == m.Recv {
+				Targets[first+i].Siblings = append(Targets[first+i].Siblings, first+j)
+			}
+			if m.Generic && o.Generic && o.Name == m.Name && shapeOf[o.Recv] == shapeOf[m.Recv] {
+				Targets[first+i].Mates = append(Targets[first+i].Mates, first+j)
+			}
+		}
+	}
+}
+
+func initFuncs() {
 	for _, f := range thunk.Funcs {
 		f := f
 		t := &Target{Idx: len(Targets), Name: f.Name, Typ: f.Typ, Entry: f.Entry, Call: f.Call, MkCb: f.MkCb, MkOrig: f.MkOriginCb,
